@@ -1,9 +1,10 @@
 #!/bin/sh
-# tools/try_seed.sh <property> <patch.diff> [tier]: apply a seeded change to /repo, run the check, undo it.
+# tools/try_seed.sh <property> <patch.diff> [tier]: run a check against a scratch copy of /repo with a seeded change applied.
+# /repo itself and /verif/.build are not touched, so this can run beside other checks.
 P=$1; D=$2; T=${3:-quick}
-cd /repo || exit 2
-git diff --quiet || { echo "/repo has local changes"; exit 2; }
-git apply "$D" || { echo "patch does not apply"; exit 2; }
-cd /verif && VERIF_TIER=$T ./check $P > /tmp/try_seed_$P.log 2>&1; rc=$?
-cd /repo && git checkout -- . 
+W=/tmp/seedrepo-$$; B=/tmp/seedbuild-$$
+git -C /repo worktree add -q --detach $W HEAD || exit 2
+( cd $W && git apply "$D" ) || { echo "patch does not apply"; git -C /repo worktree remove --force $W; exit 2; }
+cd /verif && VERIF_REPO=$W VERIF_BUILD=$B VERIF_OUT=/tmp/seedout VERIF_TIER=$T ./check $P > /tmp/try_seed_$P.log 2>&1; rc=$?
+git -C /repo worktree remove --force $W; rm -rf $B
 echo "exit=$rc"; grep -c VIOLATION /tmp/try_seed_$P.log; grep -A1 VIOLATION /tmp/try_seed_$P.log | grep "like cases" | cut -c1-260 | head -8; tail -1 /tmp/try_seed_$P.log
